@@ -202,6 +202,9 @@ func wellFormed6(r *rand.Rand, ownDUID dhcpv6.DUID) ([]byte, string) {
 	if r.Intn(2) == 0 {
 		m.AddOption(&dhcpv6.OptIANA{IaId: [4]byte{0, 0, 0, byte(r.Intn(4))}})
 	}
+	if r.Intn(4) == 0 {
+		m.AddOption(&dhcpv6.OptIATA{IaId: [4]byte{0, 0, 1, byte(r.Intn(4))}}) // temporary addresses, with or without an IA_NA
+	}
 	npd := r.Intn(3)
 	for i := 0; i < npd; i++ {
 		pd := &dhcpv6.OptIAPD{IaId: [4]byte{1, 0, 0, byte(i)}}
@@ -1096,7 +1099,12 @@ func runServerConc(t *Trace, seed int64, rounds int) error {
 						if fr.res == "wedged" || fr.res == "slow" {
 							atomic.StoreInt32(&wedged, 1)
 						}
-						e := Ev{"fam": "server", "ev": "dg", "proto": 4, "kind": "conc", "mut": "none", "len": 0, "res": fr.res, "n": fr.n, "msg": fr.msg, "match": true}
+						e := Ev{"fam": "server", "ev": "dg", "proto": 4, "kind": "conc", "mut": "none", "len": 0, "res": fr.res, "n": fr.n, "msg": fr.msg, "match": true, "static": true}
+						if mi == 0 {
+							// the client of the static file: it is listed before, during and after every refresh, so in EVERY serial order it
+							// is answered by the file plugin with its listed address
+							e["static"] = len(fr.sent4) == 1 && fr.sent4[0].Resp.YourIPAddr.Equal(net.IPv4(10, 0, 0, 50))
+						}
 						if len(fr.sent4) == 1 {
 							s := fr.sent4[0]
 							e["match"] = s.Resp.TransactionID == d.TransactionID && bytes.Equal(s.Resp.ClientHWAddr, d.ClientHWAddr)
@@ -1128,10 +1136,19 @@ func runServerConc(t *Trace, seed int64, rounds int) error {
 						if fr.res == "wedged" || fr.res == "slow" {
 							atomic.StoreInt32(&wedged, 1)
 						}
-						e := Ev{"fam": "server", "ev": "dg", "proto": 6, "kind": "conc", "mut": "none", "len": 0, "res": fr.res, "n": fr.n, "msg": fr.msg, "match": true}
+						e := Ev{"fam": "server", "ev": "dg", "proto": 6, "kind": "conc", "mut": "none", "len": 0, "res": fr.res, "n": fr.n, "msg": fr.msg, "match": true, "static": mi != 0}
 						if len(fr.sent6) == 1 {
 							if rm, err := fr.sent6[0].Resp.GetInnerMessage(); err == nil {
 								e["match"] = rm.TransactionID == m.TransactionID
+								if mi == 0 {
+									if na := rm.Options.OneIANA(); na != nil {
+										for _, a := range na.Options.Addresses() {
+											if a.IPv6Addr.Equal(net.ParseIP("2001:db8::50")) {
+												e["static"] = true
+											}
+										}
+									}
+								}
 								// the prefix family's view of this exchange
 								ias := []Ev{}
 								ans := []Ev{}
